@@ -641,7 +641,13 @@ func emitEcho(c *Ctx, uc udpCase, obs string) {
 func redisSchedRound(c *Ctx, r *Rng, round int) {
 	storeOp(c, "st.reset", map[string]string{"n": "1", "kind": "redis", "instances": "1"})
 	clock := int64(1700000000e9) + int64(round)*1e9
-	storeOp(c, "st.clock", map[string]string{"t": strconv.FormatInt(clock, 10)})
+	withGC := r.Intn(2) == 0
+	if withGC {
+		// the sequential prefix is old: an expiry pass has something to remove
+		storeOp(c, "st.clock", map[string]string{"t": strconv.FormatInt(clock-100e9, 10)})
+	} else {
+		storeOp(c, "st.clock", map[string]string{"t": strconv.FormatInt(clock, 10)})
+	}
 	u := mkUniverse(r, 1, 3)
 	ih := hx(u.ihs[0])
 	fam4 := len(u.peers[0]) == 26
@@ -651,8 +657,11 @@ func redisSchedRound(c *Ctx, r *Rng, round int) {
 			peers = append(peers, hx(p))
 		}
 	}
-	for i := 0; i < r.Intn(4); i++ {
+	for i := 0; i < r.Intn(5); i++ {
 		storeOp(c, []string{"st.put_seeder", "st.put_leecher"}[r.Intn(2)], map[string]string{"ih": ih, "pk": peers[r.Intn(len(peers))], "inst": "0"})
+	}
+	if withGC {
+		storeOp(c, "st.clock", map[string]string{"t": strconv.FormatInt(clock, 10)})
 	}
 	threads := 2 + r.Intn(3)
 	var progs []string
@@ -665,6 +674,16 @@ func redisSchedRound(c *Ctx, r *Rng, round int) {
 		}
 		progs = append(progs, strings.Join(pr, ";"))
 	}
+	if withGC {
+		// one or two expiry passes (two: another instance's), cutoff between the old and the new time, or at the new
+		// time (everything is stale), or before the old one (nothing is)
+		for g := 1 + r.Intn(2); g > 0; g-- {
+			cut := []int64{clock - 50e9, clock - 50e9, clock, clock - 200e9}[r.Intn(4)]
+			progs = append(progs, "gc:"+strconv.FormatInt(cut, 10))
+			threads++
+			trips += 12
+		}
+	}
 	// a schedule that usually stops with operations in flight, sometimes runs past the end
 	var sched []string
 	for k := r.Intn(trips + 2); k > 0; k-- {
@@ -675,7 +694,14 @@ func redisSchedRound(c *Ctx, r *Rng, round int) {
 		sa = strings.Join(sched, ",")
 	}
 	storeOp(c, "st.redis_sched", map[string]string{"ih": ih, "progs": strings.Join(progs, "|"), "sched": sa})
-	c.Kind("redis-sched")
+	if withGC {
+		c.Kind("redis-sched-gc")
+		if lastSchedDiscards > 0 {
+			c.Kind("redis-sched-gc-with-discarded-transactions")
+		}
+	} else {
+		c.Kind("redis-sched")
+	}
 	storeOp(c, "st.dump", map[string]string{})
 	storeOp(c, "st.totals", map[string]string{"inst": "0"})
 }
